@@ -9,6 +9,9 @@ from pathlib import Path
 sys.path.insert(0, str(Path(__file__).resolve().parent))
 
 
+FIXED_VALUES = {}
+
+
 def gen_docs(seed, tier):
     """yields (family, [composites]) deterministically"""
     from odxgen import gen as G
@@ -27,6 +30,17 @@ def gen_docs(seed, tier):
     # multiplexers: every declaration order of the cases x every way of selecting a case (switch key filled in by the encoder)
     for comps in batches(G.enum_mux_orders(), 22):
         yield "enum-mux-orders", comps
+    # BYTE-SIZE structures with explicitly positioned members in every listing order; terminated MIN-MAX objects with
+    # values around the termination sequence (fixed values: FIXED_VALUES[name])
+    for fam, it in (("enum-struct-layout-orders", G.enum_struct_layout_orders()), ("enum-minmax-terminated", G.enum_minmax_terminated())):
+        seen, comps = {}, []
+        for c, v in it:
+            if c.name not in seen:
+                seen[c.name] = c
+                comps.append(c)
+            FIXED_VALUES.setdefault(c.name, []).append(v)
+        for cs in batches(iter(comps), 24):
+            yield fam, cs
     n = 12000 if big else 1500
     buf = []
     for i in range(n):
@@ -70,6 +84,8 @@ def run_cases(seed, tier, on_case):
                     vals = []
             elif family == "enum-texttable":
                 vals = [{"x": t, "y": 0xA5} for _, _, t in c.params[1].dop.compu.scales]
+            elif family in ("enum-struct-layout-orders", "enum-minmax-terminated"):
+                vals = FIXED_VALUES.get(c.name, [])
             elif family == "enum-mux-orders":
                 try:
                     vals = G_enum_mux_values(vrng, c)
